@@ -32,7 +32,7 @@ func zzC12HeapStep() {
 	for i := range fs {
 		i := i
 		d := vInt64("fire")
-		vAssume(d >= -zzMaxD && d <= zzMaxD)
+		vAssume(d >= -zzMaxD) // any fire time from the recent past up to "never" (MaxInt64 ahead)
 		fs[i] = &future{f: func() { fired[i]++ }, fireT: base.Add(time.Duration(d)), idx: i}
 		if i > 0 {
 			vAssume(!fs[i].fireT.Before(fs[(i-1)/2].fireT))
